@@ -414,6 +414,7 @@ func parseIPItem(s string) (ipItem, bool) {
 func ipSpec(cs *Case) *spec {
 	sp := &spec{family: "ipMatch"}
 	var items []ipItem
+	mapped := false
 	for _, s := range strings.Split(string(cs.Arg), ",") {
 		it, ok := parseIPItem(s)
 		if !ok {
@@ -421,8 +422,9 @@ func ipSpec(cs *Case) *spec {
 			return sp
 		}
 		if it.pfx.Addr().Is4In6() {
-			sp.skipUnit = "IPv4-mapped IPv6 list item (family undocumented)"
-			return sp
+			// which family an IPv4-mapped item belongs to is undocumented: only inputs that are
+			// neither IPv4 nor IPv4-mapped are asserted against such a list
+			mapped = true
 		}
 		items = append(items, it)
 	}
@@ -438,6 +440,9 @@ func ipSpec(cs *Case) *spec {
 		}
 		if a.Zone() != "" || a.Is4In6() {
 			return &want{skip: "zoned or IPv4-mapped IPv6 input (family undocumented)"}
+		}
+		if mapped && a.Is4() {
+			return &want{skip: "IPv4 input against a list with an IPv4-mapped IPv6 item (family undocumented)"}
 		}
 		v := false
 		var hit ipItem
